@@ -862,4 +862,35 @@ Definition check_c07 := check_with oracle_c07.
 
 Definition diag (cs : case) : result := model cs.
 
+(** * The documented hop-field MAC input (doc/protocols/scion-header.rst, "Hop Field MAC
+    Computation"): 2 zero bytes, SegID (2), Timestamp (4), 1 zero byte, ExpTime (1),
+    ConsIngress (2), ConsEgress (2), 2 zero bytes.  [mac-layout] cases compare, for the hop
+    fields of the generated packets, (a) the block built by path.MACInput with this layout and
+    (b) path.FullMAC with the runner's independent reference (RFC 4493 AES-CMAC over this
+    layout) from which the MAC table of the packet cases is filled. *)
+Definition mac_input (sid ts e i g : N) : list N :=
+  [0; 0] ++ be_bytes 2 sid ++ be_bytes 4 ts ++ [0; e mod 256] ++ be_bytes 2 i ++ be_bytes 2 g ++ [0; 0].
+
+(** cases of the runners that also carry mac-layout checks (a separate type so that [case],
+    which other models extend, keeps its constructors) *)
+Inductive xcase :=
+| XCase (c : case)
+| XMacLayout (sid ts e i g : N)
+             (blk_hi blk_lo : N)     (* the 16 bytes written by path.MACInput, as two 8-byte words *)
+             (ref_hi ref_lo : N)     (* reference full MAC *)
+             (impl_hi impl_lo : N).  (* path.FullMAC *)
+
+Definition layout_ok (sid ts e i g bh bl rh rl ih il : N) : bool :=
+  list_eqb N.eqb (be_bytes 8 bh ++ be_bytes 8 bl) (mac_input sid ts e i g) &&
+  (rh =? ih) && (rl =? il).
+
+Definition xcheck (f : case -> N) (x : xcase) : N :=
+  match x with
+  | XCase c => f c
+  | XMacLayout sid ts e i g bh bl rh rl ih il =>
+    let ok := layout_ok sid ts e i g bh bl rh rl ih il in Check.verdict ok ok
+  end.
+Definition xdiag (x : xcase) : result :=
+  match x with XCase c => diag c | XMacLayout _ _ _ _ _ _ _ _ _ _ _ => Done end.
+
 End Router.
